@@ -15,7 +15,7 @@ func init() {
 		add(&quick, "utils", "ZZ_C14_CountOf", "three slices of symbolic length in [0,2^40]")
 		add(&quick, "utils", "ZZ_C14_ByteReader", bh, 0)
 		add(&quick, "utils", "ZZ_C14_ByteReader", bh, 1)
-		for k := int64(0); k < 3; k++ {
+		for k := int64(0); k < 5; k++ {
 			add(&quick, "utils", "ZZ_C14_StealBytes", bh, k)
 		}
 		bs := "sizes {0,1,2,3,1023,1024,1025,2047,2048,2049,65536,65537} (argument 2 indexes this list), symbolic contents; synchronous channel (queue 0) or queued channel (queue>0, sender thread explored)"
@@ -81,9 +81,12 @@ func init() {
 		for _, c := range [][]int64{{0, 0}, {1, 0}, {0, 1}, {1, 1}} {
 			quick = append(quick, &Job{Pkg: "codec/format", Func: "ZZ_C16_JSON", Args: c, Bounds: "frame bytes symbolic (0..3 or 2049 bytes); encoding/json replaced by its contract stub"})
 		}
+		for _, c := range [][]int64{{0, 0}, {1, 1}} {
+			quick = append(quick, &Job{Pkg: "codec/format", Func: "ZZ_C16_JSONTwoFrames", Args: c, PoolPrecise: true, Bounds: "two frames of 1..3 and 0..2 symbolic bytes through one JSON codec instance; the decoder stub reads ahead and may leave unconsumed bytes behind; precise sync.Pool model (a pooled decoder is reused)"})
+		}
 		Specs["C16"] = &Spec{
 			Jobs:      jobsBy(quick, thorough),
-			MustReach: []string{"c16-text-done", "c16-retained-done", "c16-json-decoded", "c16-json-rejected", "c16-json-encoded"},
+			MustReach: []string{"c16-text-done", "c16-retained-done", "c16-json-decoded", "c16-json-rejected", "c16-json-encoded", "c16-json-second-decoded"},
 			Bounds: map[string]string{
 				"quick":    "text codec: strings of 0..4 arbitrary bytes through 7 inbound paths ([]byte, *bytes.Reader, fragmenting reader, *bytes.Buffer, length-field / delimiter / varint codec underneath) and 2049-byte strings through 2 of them; two strings of 1..3 bytes through one chain of packet / length-field / delimiter / varint codec + text codec, both looked at after the second delivery (a received string must not change with later traffic); JSON codec: wiring under the encoding/json contract stub for all four flag combinations",
 				"thorough": "2049-byte strings through 6 of the 7 paths (not through the byte-wise delimiter scan)",
